@@ -33,8 +33,17 @@ PruneScenes == {p \in [kind : {"prune"}, bA : {"none", "Num"}, bB : {"none", "Nu
                        used : SUBSET {"F_A", "F_B", "F_C"}, ret : {"F_A", "F_B", "F_C", "String", "FooC"}] : TRUE}
 PruneTps(p) == <<TP("F_A", "inv", Bounds[p.bA]), TP("F_B", "inv", Bounds[p.bB]), TP("F_C", "inv", Bounds[p.bC])>>
 CompareScenes == {[kind |-> "compare"]}
-Init == s \in MatchScenes \cup PruneScenes \cup CompareScenes
+\*   pick     : class Sink<v T> and a function test(x: Sink<ax>, y: Sink<ay>); inside test, Generator.gen_variable(Sink<w>, only_leaves, subtype)
+\*              - a variable the generator offers for a wanted type has a type below it (C01; the generator's use of the subtype relation
+\*              under declaration-site variance combined with use-site projections)
+W(v, t) == [k |-> "W", n |-> v, a |-> <<t>>]
+SinkArgs == [Int |-> IntT, Num |-> Num, outInt |-> W("out", IntT), outNum |-> W("out", Num), inInt |-> W("in", IntT), inNum |-> W("in", Num)]
+Fits(v, a) == v = "inv" \/ a \in {"Int", "Num"} \/ (v = "out" /\ a \in {"outInt", "outNum"}) \/ (v = "in" /\ a \in {"inInt", "inNum"})
+PickScenes == {q \in [kind : {"pick"}, v : {"inv", "out", "in"}, ax : DOMAIN SinkArgs, ay : DOMAIN SinkArgs, w : DOMAIN SinkArgs] :
+                 Fits(q.v, q.ax) /\ Fits(q.v, q.ay) /\ Fits(q.v, q.w) /\ q.ax # q.ay}
+Init == s \in MatchScenes \cup PruneScenes \cup CompareScenes \cup PickScenes
 Next == UNCHANGED s
 Emit == PrintT(ToJson(IF s.kind = "match" THEN [id |-> s, ctps |-> CTPs[s.ctp], mtps |-> MTPs[s.mtp], mty |-> MTy[s.mty]]
-                      ELSE IF s.kind = "prune" THEN [id |-> s, tps |-> PruneTps(s)] ELSE [id |-> s]))
+                      ELSE IF s.kind = "prune" THEN [id |-> s, tps |-> PruneTps(s)]
+                      ELSE IF s.kind = "pick" THEN [id |-> s, ax |-> SinkArgs[s.ax], ay |-> SinkArgs[s.ay], w |-> SinkArgs[s.w]] ELSE [id |-> s]))
 =============================================================================
